@@ -233,4 +233,7 @@ class Encoder(object):
         return "'%s'" % val.compressed
 
     def cql_encode_decimal(self, val):
-        return self.cql_encode_float(float(val))
+        if not val.is_finite():
+            return self.cql_encode_float(float(val))
+        # the exact decimal text: going through float would silently round
+        return str(val)
